@@ -17,7 +17,7 @@ PROPERTY_MACHINES = {
     "C04": ["c04", "c04l"],
     "C16": ["c16"],
     "C17": ["c17"],
-    "C18": ["c18", "c18m"],
+    "C18": ["c18", "c18m", "c18l"],
     "C20": ["c20"],
 }
 
